@@ -3,6 +3,7 @@ use crate::engine::PropertyDef;
 
 pub mod c03;
 pub mod c04;
+pub mod c05;
 pub mod c07;
 pub mod c08;
 pub mod c09;
@@ -11,6 +12,7 @@ pub mod c12;
 pub mod c14;
 pub mod c15;
 pub mod c16;
+pub mod c17;
 pub mod c18;
 pub mod c19;
 pub mod c21;
@@ -29,6 +31,7 @@ pub fn all() -> Vec<PropertyDef> {
     vec![
         c03::def(),
         c04::def(),
+        c05::def(),
         c07::def(),
         c08::def(),
         c09::def(),
@@ -37,6 +40,7 @@ pub fn all() -> Vec<PropertyDef> {
         c14::def(),
         c15::def(),
         c16::def(),
+        c17::def(),
         c18::def(),
         c19::def(),
         c21::def(),
